@@ -25,7 +25,9 @@
 (*   FileBegin {file, n}                                                   *)
 (*   Stage {stage, ok, tmpl, schema, hasschema, validated}                 *)
 (*   Generated {file, bytes}  Failpoint {}  Exists {file, exists, force}   *)
-(*   Write {file, bytes}   Missing {pkg, iface}   Exit {code}              *)
+(*   Write {file, nfile, bytes}   Missing {pkg, iface}   Exit {code}       *)
+(*     (nfile: the file's absolute, cleaned spelling -- what Tree.changed  *)
+(*      is spelled in; equal to file unless `dir` is relative)             *)
 (*   ProcExit {code}  (status seen by the operating system)                *)
 (*   Tree {changed}   (files of the tree whose content differs afterwards) *)
 (* Paths arrive split into segments (psegs: package path, dsegs/fnsegs/    *)
@@ -87,7 +89,7 @@ Ini0   == [open |-> FALSE, passes |-> 0, loop |-> 0, npkgs |-> 0, seen |-> {}, r
 Pass10 == [done |-> FALSE, recs |-> {}, excl |-> {}, inj |-> {}, n |-> 0]
 Sl0    == [parsed |-> FALSE, sel |-> << >>, curi |-> << >>, riter |-> -1, res |-> NoRes, ncol |-> << >>, reserr |-> FALSE]
 Fl0    == [begun |-> {}, cur |-> "", oks |-> {}, bad |-> FALSE, hasschema |-> FALSE, checked |-> FALSE, exists |-> FALSE,
-           force |-> FALSE, bytes |-> -1, written |-> {}, failed |-> {}]
+           force |-> FALSE, bytes |-> -1, written |-> {}, nwritten |-> {}, failed |-> {}]
 Fin0   == [miss |-> {}, exited |-> FALSE, code |-> -1, proc |-> -1]
 NoExp  == [sel |-> {}, known |-> {}, mocks |-> {}, force |-> {}, src |-> {}, exit |-> "any"]
 Xb0    == [on |-> FALSE, exp |-> NoExp, used |-> {}]
@@ -265,7 +267,7 @@ Chk(e) ==
           <<"zero-status-needs-exit-event-once-parsed", (sl.parsed /\ ~fin.exited) => e.code # 0>>,
           <<"process-exits-once", fin.proc = -1>>}
     [] e.ev = "Tree" ->
-         {<<"only-written-files-changed", SeqSet(e.changed) \subseteq fl.written>>}
+         {<<"only-written-files-changed", SeqSet(e.changed) \subseteq fl.nwritten>>}
     [] OTHER -> {<<"known-event", FALSE>>}
 
 -----------------------------------------------------------------------------
@@ -317,7 +319,7 @@ FlEff(e) ==
     [] e.ev = "Failpoint" -> [fl EXCEPT !.bad = TRUE, !.failed = @ \cup {fl.cur}]
     [] e.ev = "Exists"    -> [fl EXCEPT !.checked = TRUE, !.exists = e.exists, !.force = e.force,
                                         !.failed = IF e.exists /\ ~e.force THEN @ \cup {fl.cur} ELSE @]
-    [] e.ev = "Write"     -> [fl EXCEPT !.written = @ \cup {e.file}]
+    [] e.ev = "Write"     -> [fl EXCEPT !.written = @ \cup {e.file}, !.nwritten = @ \cup {e.nfile}]
     [] OTHER -> fl
 FinEff(e) ==
   CASE e.ev = "Missing"  -> [fin EXCEPT !.miss = @ \cup {Key(e)}]
